@@ -48,6 +48,15 @@ TOUCHES = {'leave_replaced'}
 REINSTALLS = {'redir_sub_fail', 'swap_fail', 'swap_pass'}
 
 
+def _o_filter(case):
+    seq, buf, fmt = case
+    return buf and fmt == 'plain' and len(seq) == 2 and seq[0][1] in ('oe', 'o', 'e') and seq[1][1] in ('none', 'o', 'e-') \
+        and seq[0][0] in ('pass', 'fail', 'skip_body', 'sub:0,0,2')
+
+
+ENV_PASSES = [{'name': 'python -O', 'argv': ['-O'], 'env': {}, 'filter': _o_filter}]
+
+
 def _tests():
     return [(k, w) for k in KINDS for w in WRITES]
 
